@@ -77,7 +77,7 @@ fn c01_uenum3() {
     if let Ok(v) = UEnum3::from_bytes(b) {
         assert!(core::mem::size_of_val(v) <= len, "C04: mapped value claims more bytes than the slice");
         let s = v.size();
-        assert!(s <= len && s % 4 == 0, "C05: size() exceeds the mapped bytes or is not a multiple of ALIGN");
+        assert!(s <= len && s % 4 == 0, "C05,C10: size() exceeds the mapped bytes or is not a multiple of ALIGN");
         match v.as_ref() {
             UEnum3Ref::A => { assert!(b[0] == 0, "C02: variant differs from the tag byte"); assert!(s == 4, "C05: size() differs from the reference extent"); }
             UEnum3Ref::B(x, y, z) => {
@@ -86,7 +86,7 @@ fn c01_uenum3() {
             }
             UEnum3Ref::C { id, key, items } => {
                 assert!(b[0] == 2 && *id == b[4] && *key == rd_u16(b, 6), "C02,C04: field differs from the reference decoding");
-                assert!(items.len() == b[8] as usize && items.len() <= items.capacity(), "C02: tail differs from the reference decoding");
+                assert!(items.len() == b[8] as usize && items.len() <= items.capacity(), "C02,C10: tail differs from the reference decoding (len > capacity in an accepted view)");
                 assert!(s == ceil_to(9 + items.len(), 4), "C05: size() differs from the reference extent");
             }
         }
